@@ -572,7 +572,8 @@ pub fn execute_l2(sc: &Scenario, mode: Mode, tag: &str, mut trace: Option<&mut V
             error_responses += 1;
           }
           digest.u64(id);
-          digest.str(&v.get("result").map(|r| r.to_string()).unwrap_or_else(|| v["error"].to_string()));
+          // the scratch directory's name differs per process; it is not part of the behaviour
+          digest.str(&v.get("result").map(|r| r.to_string()).unwrap_or_else(|| v["error"].to_string()).replace(&root.display().to_string(), "<root>"));
           responses.insert(id, v.get("result").cloned().unwrap_or(Value::Null));
           if let Some(t) = trace.as_deref_mut() {
             t.push(json!({"response": id, "result": v.get("result"), "error": v.get("error")}));
